@@ -254,6 +254,7 @@ def check(run):
     c3 = cm.leaf(it, 9, 'other')
     c3.attrs['_hash'] = c1.attrs['_hash']
     c3.attrs['_hashes'] = ListV([c1.attrs['_hash']])
+    cm.reforge(it, c3)
     weq = prog.where(prog.method('Cell', '__eq__'))
     r13 = it.cmp(ast.Eq(), c1, c3, None)
     run.check(isinstance(r13, K) and r13.v is True, 'D6', 'Cell.__eq__' if not (isinstance(r13, K) and r13.v is True) else 'eq-same-hash',
